@@ -29,10 +29,11 @@ func main() {
 	nDirect := r.Pick(500, 8000)
 	nRun := r.Pick(60, 600)
 	serial := uint64(r.Seed&0xffff) << 24
+	restarts := true // direct mode only: the Run loop of run mode lives as long as its process
 	gen := func(i int) *proc.Scenario {
 		n := sizes[i%len(sizes)]
 		pos := (i/len(sizes))%(n+1) - 1 // -1 (not a member), 0..n-1
-		return proc.Gen(rng, proc.GenOpts{N: n, NodePos: pos, NSets: 1 + rng.Intn(3), NMsgs: 1 + rng.Intn(4), Serial: serial + uint64(i), Hostile: true, SetMoves: true})
+		return proc.Gen(rng, proc.GenOpts{N: n, NodePos: pos, NSets: 1 + rng.Intn(3), NMsgs: 1 + rng.Intn(4), Serial: serial + uint64(i), Hostile: true, SetMoves: true, Restarts: restarts})
 	}
 	for i := 0; i < nDirect; i++ {
 		sc := gen(i)
@@ -45,6 +46,9 @@ func main() {
 		proc.RunDirect(rig, sc, md, func(rec *proc.StepRecord) {
 			r.Count("events", 1)
 			r.Count("events_"+rec.Event.Kind+"_"+rec.Event.Variant, 1)
+			if rec.Event.Kind == "restart" {
+				r.Count("process_restarts_in_scenarios", 1)
+			}
 			for _, o := range rec.Out {
 				if o.Kind == "vaa" {
 					r.Count("quorum_vaas_broadcast_checked", 1)
@@ -79,6 +83,7 @@ func main() {
 		}
 	}
 	// run mode
+	restarts = false
 	for i := 0; i < nRun; i++ {
 		sc := gen(nDirect + i)
 		rig, err := proc.New(proc.Options{Key: vlib.Key(proc.NodeKey), DB: store, Run: true})
